@@ -64,6 +64,15 @@ func (s *scribbler) walk(v reflect.Value, depth int) {
 		for i := 0; i < v.Len(); i++ {
 			s.walk(v.Index(i), depth+1)
 		}
+		// a caller may also assign whole elements of a slice it was handed
+		if k := v.Type().Elem().Kind(); k == reflect.Struct || k == reflect.Ptr || k == reflect.Interface {
+			for i := 0; i < v.Len(); i++ {
+				if e := v.Index(i); e.CanSet() {
+					e.Set(reflect.Zero(e.Type()))
+					s.n++
+				}
+			}
+		}
 	case reflect.Array:
 		if v.Type().Elem().Kind() == reflect.Uint8 && v.CanAddr() {
 			b := unsafe.Slice((*byte)(unsafe.Pointer(v.UnsafeAddr())), v.Len())
